@@ -274,7 +274,9 @@ class System:
                                          datagen=lambda p, h: 'generated')
             self.handler = BoboActionHandlerMultithreading(threads=2) if handler_kind == 'threads' \
                 else BoboActionHandlerBlocking()
-            devices = [BoboDevice('127.0.0.1', 9101, 'urn_a', 'key_a'), BoboDevice('127.0.0.1', 9102, 'urn_b', 'key_b')]
+            # two remote peers: branches of the outgoing pass that need several peers in one mode in the same pass are exercised
+            devices = [BoboDevice('127.0.0.1', 9101, 'urn_a', 'key_a'), BoboDevice('127.0.0.1', 9102, 'urn_b', 'key_b'),
+                       BoboDevice('127.0.0.1', 9103, 'urn_c', 'key_c')]
             gen_event = None
             if genevent:
                 from bobocep.cep.gen.event import BoboGenEventTime
@@ -518,11 +520,7 @@ def _ops():
         s.engine.update()
         s.feed(2)
         s.engine.update()
-        r._max_size = 3
-        q = Queue(3)
-        while not r._queue.empty():
-            q.put(r._queue.get_nowait())
-        r._queue = q
+        bound_queue(r, '_queue', 3)
         s.feed(3)
 
     def fill(s):
@@ -1035,6 +1033,24 @@ def run(ctx: Ctx) -> Result:
 # bounded queues at capacity: a producer must not wait for room while it holds what the consumer needs
 # --------------------------------------------------------------------------
 
+def bound_queue(obj, attr, n, make=None):
+    """give a task the queue bound its constructor's `max_size=n` would have given it.  A `queue.Queue` is replaced by a
+    bounded one (its waiting items moved over); any other container (a deque guarded by the task's own size test, …)
+    is left as it is -- the bound is then the task's `_max_size` alone, and there is no blocking `put` to wait in."""
+    from queue import Queue
+    q = getattr(obj, attr)
+    if isinstance(q, Queue):
+        new = (make or Queue)(n)
+        while not q.empty():
+            new.put(q.get_nowait())
+        setattr(obj, attr, new)
+    if hasattr(obj, '_max_size'):
+        obj._max_size = n
+    for k in ('_max_size_incoming', '_max_size_outgoing'):
+        if attr.endswith(k[len('_max_size'):]) and hasattr(obj, k):
+            setattr(obj, k, n)
+
+
 def full_queue_scenarios():
     """(name, bound(s) -> None, producer op, other roles' ops).  Each bounded queue of the distributed component is brought
     to capacity (size 1); the role that feeds it runs its entry point while the roles that drain it, or that need the
@@ -1042,7 +1058,7 @@ def full_queue_scenarios():
     from queue import Queue
 
     def bound_outgoing(s):
-        s.dist._queue_outgoing = Queue(maxsize=1)
+        bound_queue(s.dist, '_queue_outgoing', 1)
         s.feed(1)
         s.engine.update()                       # one local change queued: the outgoing queue is full
 
@@ -1059,14 +1075,16 @@ def full_queue_scenarios():
         s.run_main_pass(p['updated'])
 
     def bound_incoming(s):
-        s.dist._queue_incoming = Queue(maxsize=1)
-        s.dist._queue_incoming.put_nowait(s.dist._incoming_from_json(make_payloads_cache['updated']))
+        bound_queue(s.dist, '_queue_incoming', 1)
+        item = s.dist._incoming_from_json(make_payloads_cache['updated'])
+        q = s.dist._queue_incoming
+        q.put_nowait(item) if hasattr(q, 'put_nowait') else q.append(item)
 
     def incoming_sync(s, p):
         s.incoming_client(1, 0, p['updated'])   # a SYNC arrives while the incoming queue is full
 
     def bound_producer(s):
-        s.engine.producer._queue = Queue(maxsize=1)      # room for ONE completed run
+        bound_queue(s.engine.producer, '_queue', 1)      # room for ONE completed run
 
     def main_two_completions(s, p):
         s.run_main_pass(p['completed2'])                 # one remote change completing two runs: the second does not fit
@@ -1092,8 +1110,7 @@ def full_queue_scenarios():
         race.clear()
         race['done'] = threading.Event()
         r = s.engine.receiver
-        r._max_size = 3
-        r._queue = SlowLook(3)
+        bound_queue(r, '_queue', 3, make=SlowLook)
         s.feed(7, 7)
 
     def feeder_first(s, p):
